@@ -415,6 +415,26 @@ fn record_body(ch: &Chooser, cfg: &Cfg) -> Outcome {
         }
     }
 
+    // ---- (e) the same documents as Box<dyn Record> (alignment_records() -> trait forwarders -> writers) ----
+    if both_valid {
+        let mut srcs: Vec<(Fmt, &[u8])> = vec![(Fmt::Sam, &t1[..])];
+        if shape != "ops>65535" {
+            // (the lazy bam::Record of a >65535-op record is D7)
+            srcs.push((Fmt::Bam(Container::Raw), &b1[..]));
+        }
+        for (src, bytes) in srcs {
+            if let Err(m) = gsam::dynpath::check_dyn_paths(src, bytes, &models, false) {
+                return v(
+                    "dyn",
+                    &m.field,
+                    &format!("differs-from-record source={} path={}", FMT_NAME(src), m.reader.replace(' ', "_")),
+                    format!("record {}: {}", m.index, m.expected),
+                    m.observed,
+                );
+            }
+        }
+    }
+
     // ---- observations ------------------------------------------------------------------------------------
     ch.obs(b"accepted");
     ch.obs_hash(&dec_s);
@@ -728,6 +748,117 @@ fn FMT_NAME(f: Fmt) -> &'static str {
     }
 }
 
+/// Records travelling as `Box<dyn Record>` (see `gsam::dynpath`): each record of the field-presence set
+/// (plus mate-reference shapes) as its own document and the whole set as one document, from every source
+/// format, through the trait forwarders, the generic conversion, every writer and `noodles_util`.
+fn dyn_body(ch: &Chooser, set: &[(&'static str, GRec)], header: &sam::Header) -> Outcome {
+    let src = *ch.pick_free("source", &[Fmt::Sam, Fmt::Bam(Container::Raw), Fmt::Bam(Container::Bgzf)]);
+    let d = ch.free("document", set.len() + 1);
+    let docs: Vec<&(&'static str, GRec)> = if d == set.len() { set.iter().collect() } else { vec![&set[d]] };
+    let want: Vec<GRec> = docs.iter().map(|x| x.1.clone()).collect();
+    let labels: Vec<&str> = docs.iter().map(|x| x.0).collect();
+    let describe = || {
+        let recs: Vec<String> = want.iter().map(|g| g.render()).collect();
+        format!("3 references; {} file of records [{}]: {}", FMT_NAME(src), labels.join(", "), recs.join(" | "))
+    };
+    ch.desc(|| describe());
+    let bufs: Vec<RecordBuf> = want.iter().map(build_record).collect();
+    let bytes = match src {
+        Fmt::Sam => write_sam(header, &dyn_recs(&bufs)),
+        Fmt::Bam(c) => write_bam(header, &dyn_recs(&bufs), c),
+    };
+    let bytes = match bytes {
+        Ok(b) => b,
+        Err(e) => vmc::machinery(format!("dyn harness: the record set must be writable: {}: {}", e.step, e.err)),
+    };
+    match gsam::dynpath::check_dyn_paths(src, &bytes, &want, true) {
+        Ok(()) => {
+            ch.obs_hash((bytes.len(), want.len()));
+            if want.iter().any(|g| g.rid != g.mrid) {
+                ch.tag("dyn: mate reference differs from reference");
+            }
+            ch.steps(want.len() as u64 * 12);
+            Ok(())
+        }
+        Err(m) => Err(Violation::new(
+            format!("stage=dyn source={} path={} field={} symptom=differs-from-record", FMT_NAME(src), m.reader.replace(' ', "_"), m.field),
+            describe(),
+            format!("record {} ({}): {}", m.index, labels.get(m.index).copied().unwrap_or("?"), m.expected),
+            m.observed,
+        )),
+    }
+}
+
+/// `header_reader()` / `raw_sam_header_reader()` driven through every `Read` destination size, the std
+/// conveniences and the `BufRead` side (see `gsam::hdrraw`).
+fn header_reader_body(ch: &Chooser, docs: &[(&'static str, GHeader)]) -> Outcome {
+    use gsam::hdrraw::{self, BamText, Under};
+    let target = *ch.pick_free("target", &[Fmt::Sam, Fmt::Bam(Container::Raw), Fmt::Bam(Container::Bgzf)]);
+    let (dl, doc) = ch.pick_free("doc", docs);
+    let nrec = *ch.pick_free("records", &[2usize, 0]);
+    let recs = hdrraw::trailing_records(nrec);
+    let longest = doc.lines.iter().map(|l| l.to_text().len()).max().unwrap_or(0);
+    let (layout_name, sam_nl, bam_layout, under): (String, bool, BamText, Under) = match target {
+        Fmt::Sam => {
+            let under = ch.pick_free("under", &hdrraw::unders()).clone();
+            let nonl = if nrec == 0 { *ch.pick_free("layout", &[false, true]) } else { false };
+            ((if nonl { "no-final-newline" } else { "plain" }).to_string(), nonl, BamText::Plain, under)
+        }
+        Fmt::Bam(_) => {
+            let l = *ch.pick_free(
+                "layout",
+                &[BamText::Plain, BamText::NulPadded(1), BamText::NulPadded(100), BamText::NoFinalNewline, BamText::NoFinalNewlineNulPadded(7)],
+            );
+            let n = match l {
+                BamText::Plain => "plain",
+                BamText::NulPadded(_) => "nul-padded",
+                BamText::NoFinalNewline => "no-final-newline",
+                BamText::NoFinalNewlineNulPadded(_) => "no-final-newline+nul-padded",
+            };
+            (n.to_string(), false, l, Under::Slice)
+        }
+    };
+    let modes = hdrraw::modes(longest);
+    let mode = ch.pick_free("mode", &modes).clone();
+    let describe = || {
+        format!(
+            "{} file: header doc `{dl}` ({} lines, longest {longest} bytes, layout {layout_name}) + {nrec} records; source windows {under:?}; \
+             header_reader(){} driven by {mode:?}; header text = \"{}\"",
+            FMT_NAME(target),
+            doc.lines.len(),
+            if target == Fmt::Sam { "" } else { ".raw_sam_header_reader()" },
+            if longest > 400 { "(see gsam::hdrraw::header_docs)".to_string() } else { esc_full(&doc.to_text()) },
+        )
+    };
+    ch.desc(|| describe());
+    let r = match target {
+        Fmt::Sam => hdrraw::check_sam(doc, sam_nl, &recs, &under, &mode),
+        Fmt::Bam(c) => hdrraw::check_bam(doc, bam_layout, &recs, c, &mode),
+    };
+    match r {
+        Ok(n) => {
+            ch.obs_hash((n, nrec));
+            if matches!(mode, hdrraw::Mode::Read(k) if k < longest) {
+                ch.tag("header_reader: read() destination shorter than a header line");
+            }
+            ch.steps(3);
+            Ok(())
+        }
+        Err(f) if f.what == "harness" => vmc::machinery(format!("header_reader harness: {}", f.observed)),
+        Err(f) => Err(Violation::new(
+            format!(
+                "stage=header-reader target={} layout={layout_name} mode={} what={}",
+                FMT_NAME(target),
+                mode.class(longest),
+                f.what
+            ),
+            describe(),
+            f.expected,
+            f.observed,
+        )),
+    }
+}
+
 fn main() {
     unsafe {
         libc::mallopt(libc::M_MMAP_THRESHOLD, 32 << 20);
@@ -741,6 +872,14 @@ fn main() {
              headers: 0..3 @SQ x 0..2 @RG x 0..3 @PG x 0..2 @CO (free) with every line k deviations from its default over \
              standard/user tags, LN bounds, tag orders, line orders and invalid shapes, with/without a following record; \
              distinct = distinct decoded contents observed",
+        );
+        ctx.rule(
+            "dyn: every record of the field-presence set (+ mate-reference shapes) alone and all together x source {SAM, BAM raw, BAM BGZF}, \
+             read by alignment_records()/noodles_util as Box<dyn Record> (and util's enum Record), every trait accessor, \
+             try_from_alignment_record, write_alignment_record into every writer; every record-grammar execution valid in both formats \
+             also travels as Box<dyn Record> | header_reader: 4 header docs (long lines, '@' runs, a line > 8 KiB) x layouts x source \
+             windows x every read() destination size 1..=longest+2 (dense to 162) + read_to_end/read_to_string/io::copy/read_until + \
+             fill_buf/consume patterns, SAM and BAM (raw_sam_header_reader; NUL padding, no final newline)",
         );
         ctx.rule(
             "writer sequences: every sequence of 0..3 write_alignment_record calls on one sam::io::Writer over 4 accepted records \
@@ -762,6 +901,21 @@ fn main() {
             nrec_free,
         };
         let _: Option<GHeader> = None;
+        // records as Box<dyn Record> through the format-agnostic traits and noodles_util
+        {
+            let mut set = reuse::record_set();
+            let full = reuse::full();
+            set.push(("mate-on-same-reference", GRec { mrid: full.rid, ..full.clone() }));
+            set.push(("unmapped-with-mate-placed", GRec { flags: 0x4 | 0x1 | 0x40, rid: None, pos: None, mapq: 255, cigar: vec![], mrid: Some(1), mpos: Some(5), ..full.clone() }));
+            set.push(("mapped-mate-unset-pos-kept", GRec { mrid: None, ..full.clone() }));
+            let h3 = std_header(3);
+            ctx.harness(Config::new("dyn_record_paths", 0), |ch| dyn_body(ch, &set, &h3));
+        }
+        // the raw-header adapters
+        {
+            let docs = gsam::hdrraw::header_docs();
+            ctx.harness(Config::new("header_reader_sweep", 0), |ch| header_reader_body(ch, &docs));
+        }
         // accepted and rejected writes interleaved on one writer
         {
             let ops = gsam::wseq::op_set();
